@@ -419,6 +419,14 @@ func (g *G) BundleAdd() (util.Message, *spec.Node) {
 	var inner util.Message
 	var in *spec.Node
 	for {
+		if !g.Avoid["bundled_error"] && g.Chance("inner_error", 1, 10) {
+			// BundleAdd carries any message value; an error message with a payload is the one kind
+			// that both directions of the codec handle and whose length is not a multiple of 4
+			sm := g.SwitchMessageOf("error")
+			inner, in = sm.Lib, sm.Tree
+			g.Label("bundled=error")
+			break
+		}
 		k := MessageKinds[g.Pick("inner_kind", len(MessageKinds))]
 		if (k == "bundle_add" && g.Depth >= 2) || g.Avoid[k] {
 			continue
@@ -430,6 +438,10 @@ func (g *G) BundleAdd() (util.Message, *spec.Node) {
 	g.Depth--
 	ba.Message = inner
 	n.Add(in)
+	if g.Chance("props_empty_not_nil", 1, 4) {
+		ba.Properties = []of.BundlePropertyExperimenter{} // "no properties" spelled as an empty list
+		g.Label("bundle_props_empty_slice")
+	}
 	if !g.Avoid["bundle_prop"] && g.Chance("props", 1, 4) {
 		k := g.Int("nprops", 1, 2)
 		for i := 0; i < k; i++ {
